@@ -17,9 +17,9 @@ PID = "C08"
 def run(tier, seed, only=None):
     rep = report.Report(PID, tier, seed)
     timeout = 30.0 if tier == "quick" else 90.0
-    cfgs = [("symL_2x2", 2, 2, False)]
+    cfgs = [("symL_2x2", 2, 2, False), ("symL_3x3", 3, 3, False), ("symR_2x3", 2, 3, True)]
     if tier == "thorough":
-        cfgs += [("symL_2x3", 2, 3, False), ("symR_2x2", 2, 2, True), ("symL_3x2", 3, 2, False)]
+        cfgs += [("symL_2x3", 2, 3, False), ("symR_2x2", 2, 2, True), ("symL_3x2", 3, 2, False), ("symL_4x4", 4, 4, False), ("symR_4x3", 4, 3, True), ("symL_2x6", 2, 6, False)]
     for (cn, nx, ny, right) in cfgs:
         s = K.surface(nx, ny, True, right=right, groundplane=True)
         P = pipe.vlm_states([s])
